@@ -118,6 +118,7 @@ impl StateRanking for QRank {
             RankKind::Natural => sum(b).cmp(&sum(a)).then_with(|| a.0.cmp(&b.0)),
             RankKind::Reverse => sum(a).cmp(&sum(b)).then_with(|| b.0.cmp(&a.0)),
             RankKind::Random(seed) => hash2(a, &seed).cmp(&hash2(b, &seed)),
+            RankKind::Flat => Ordering::Equal,
         }
     }
 }
